@@ -195,7 +195,9 @@ class World:
 
     def make_fn(self):
         src = self.source()
-        ns = {"_A": self.anns, "_D": self.defaults, "_body": self._body}
+        from ._c17_defs import FORWARD_NAMES
+
+        ns = dict(FORWARD_NAMES, _A=self.anns, _D=self.defaults, _body=self._body)
         try:
             exec(compile(src, "<c17-program>", "exec"), ns)  # noqa: S102 - generated by the harness itself
         except SyntaxError as e:
